@@ -151,8 +151,17 @@ type sess struct {
 	seen                                    []wamp.Message // recent, bounded
 }
 
-func (s *sess) pump() {
-	for m := range s.lk.incoming() {
+// link returns the session's current transport (nil before the first open).
+func (s *sess) link() link {
+	s.mu.Lock()
+	defer s.mu.Unlock()
+	return s.lk
+}
+
+// pump consumes what the router sends on lk; a session that was re-opened
+// meanwhile has another pump, so everything here is tied to lk.
+func (s *sess) pump(lk link) {
+	for m := range lk.incoming() {
 		s.mu.Lock()
 		if m != nil {
 			t := int(m.MessageType())
@@ -163,7 +172,7 @@ func (s *sess) pump() {
 			case *wamp.Invocation:
 				s.lastInv = x.Request
 				if s.spec.Roles == "all+yield" {
-					lk, req := s.lk, x.Request
+					req := x.Request
 					go func() {
 						y := &Msg{T: 70, F: []V{vID(uint64(req)), vDict(), vList(vInt(1))}}
 						if lk.isLocal() {
@@ -200,6 +209,10 @@ func (s *sess) pump() {
 		}
 	}
 	s.mu.Lock()
+	if s.lk != lk {
+		s.mu.Unlock()
+		return // the session was re-opened: this pump belongs to the old transport
+	}
 	s.alive, s.est = false, false
 	ws := s.waiters
 	s.waiters = nil
@@ -331,8 +344,8 @@ func orDefault(s, d string) string {
 
 // open establishes the transport (no HELLO).
 func (w *worker) open(s *sess) error {
-	if s.lk != nil {
-		s.lk.close()
+	if old := s.link(); old != nil {
+		old.close()
 	}
 	var lk link
 	var err error
@@ -352,8 +365,14 @@ func (w *worker) open(s *sess) error {
 	s.mu.Lock()
 	s.lk, s.alive, s.est = lk, true, false
 	s.seen = nil
+	// waiters of the previous transport are released
+	ws := s.waiters
+	s.waiters = nil
 	s.mu.Unlock()
-	go s.pump()
+	for _, w := range ws {
+		close(w)
+	}
+	go s.pump(lk)
 	return nil
 }
 
@@ -403,28 +422,28 @@ func (w *worker) resolver(ss []*sess, s *sess) resolver {
 
 func (w *worker) send(ss []*sess, s *sess, m *Msg, st *runStats) {
 	s.mu.Lock()
-	alive := s.alive
+	alive, lk := s.alive, s.lk
 	s.mu.Unlock()
-	if s.lk == nil || !alive {
+	if lk == nil || !alive {
 		st.SendErr++
 		return
 	}
 	res := w.resolver(ss, s)
 	var err error
-	if s.lk.isLocal() {
+	if lk.isLocal() {
 		tm, ok := m.typed(res)
 		if !ok {
 			st.Inexpress++
 			return
 		}
-		err = s.lk.sendTyped(tm)
+		err = lk.sendTyped(tm)
 	} else {
 		list, enc := m.wireList(res)
 		if !enc {
 			st.Inexpress++
 			return
 		}
-		err = s.lk.sendList(list)
+		err = lk.sendList(list)
 		if err != nil && strings.HasPrefix(err.Error(), "unencodable") {
 			st.Inexpress++
 			return
@@ -600,36 +619,36 @@ func (w *worker) step(ss []*sess, stp Step, st *runStats) {
 	case "msg":
 		w.send(ss, s, stp.M, st)
 	case "nilmsg":
-		if s.lk != nil && s.lk.isLocal() {
-			_ = s.lk.sendTyped(nil)
+		if lk := s.link(); lk != nil && lk.isLocal() {
+			_ = lk.sendTyped(nil)
 		}
 	case "bytes":
-		if s.lk != nil {
+		if lk := s.link(); lk != nil {
 			b, _ := hex.DecodeString(stp.Hex)
-			if err := s.lk.sendBytes(b); err != nil {
+			if err := lk.sendBytes(b); err != nil {
 				st.SendErr++
 			} else {
 				st.Sent++
 			}
 		}
 	case "wsframe":
-		if s.lk != nil {
+		if lk := s.link(); lk != nil {
 			b, _ := hex.DecodeString(stp.Hex)
-			if err := s.lk.sendWSFrame(stp.Code, b); err != nil {
+			if err := lk.sendWSFrame(stp.Code, b); err != nil {
 				st.SendErr++
 			} else {
 				st.Sent++
 			}
 		}
 	case "close":
-		if s.lk != nil {
-			s.lk.close()
+		if lk := s.link(); lk != nil {
+			lk.close()
 		}
 	case "goodbye":
 		w.send(ss, s, mk(6, vDict(), vURI("wamp.close.close_realm")), st)
 		s.waitFor(func(m wamp.Message) bool { _, ok := m.(*wamp.Goodbye); return ok }, 300*time.Millisecond*w.timeMult)
-		if s.lk != nil {
-			s.lk.close()
+		if lk := s.link(); lk != nil {
+			lk.close()
 		}
 	case "sync":
 		w.syncSess(ss, s, st)
@@ -672,8 +691,8 @@ func (w *worker) runHistory(h *History) runStats {
 		}
 	}
 	for _, s := range ss {
-		if s.lk != nil {
-			s.lk.close()
+		if lk := s.link(); lk != nil {
+			lk.close()
 		}
 		s.mu.Lock()
 		for t, n := range s.got {
@@ -716,8 +735,10 @@ func (w *worker) probe() error {
 
 func (w *worker) dropProbe() {
 	for _, s := range []*sess{w.probeA, w.probeB} {
-		if s != nil && s.lk != nil {
-			s.lk.close()
+		if s != nil {
+			if lk := s.link(); lk != nil {
+				lk.close()
+			}
 		}
 	}
 	w.probeA, w.probeB = nil, nil
@@ -792,7 +813,7 @@ func (w *worker) probeOnce() error {
 		}
 		w.send([]*sess{c}, c, mk(6, vDict(), vURI("wamp.close.close_realm")), &st)
 		c.waitFor(func(m wamp.Message) bool { _, ok := m.(*wamp.Goodbye); return ok }, d)
-		c.lk.close()
+		c.link().close()
 	}
 	return nil
 }
